@@ -18,7 +18,8 @@
    the six small curves of Proofs/EcSmall.v. *)
 From Coq Require Import List Bool ZArith Znumtheory.
 From Bec2 Require Import Base.Result Base.Modp Gen.EcFormulas Gen.Curves Model.Ec
-  Proofs.EcFormulaProofs Proofs.EcNafProofs Proofs.EcMulProofs Proofs.EcMulAddProofs Proofs.EcParams
+  Proofs.EcFormulaProofs Proofs.EcNafProofs Proofs.EcMulProofs Proofs.EcMulAddProofs Proofs.EcTotalProofs
+  Proofs.EcParams
   Proofs.EcSmall Proofs.EcSmallMul Proofs.EcSmallMulAdd Proofs.EcSmallEcdh.
 Import ListNotations.
 Open Scope Z_scope.
@@ -200,7 +201,8 @@ Print Assumptions C17_naf.
 
 (* __mul__ (NAF path and the precomputed-table path _mul_precompute incl. the table
    built by _maybe_precompute, order reduction mod 2n, k = 0, k = 1, infinite operand):
-   whenever the model returns, the result represents k*Q; None (INFINITY) iff k*Q = 0. *)
+   the value the model returns (it does return: C17_mul_total) represents k*Q;
+   None (INFINITY) iff k*Q = 0. *)
 Theorem C17_mul : forall p a inG gadd gneg, ec_group p a inG gadd gneg ->
   forall J Q ord gen k r, inG Q -> jrepr p J Q ->
   (ord = 0 \/ (0 < ord /\ zmul gadd gneg ord Q = None)) ->
@@ -224,7 +226,8 @@ Theorem C17_mul_add : forall p a inG gadd gneg, ec_group p a inG gadd gneg ->
 Proof. exact mul_add_correct. Qed.
 Print Assumptions C17_mul_add.
 
-(* scale(), inverse_mod: whenever they return, the value is right *)
+(* scale(), inverse_mod: whenever they return, the value is right (they do return: see the
+   totality theorems below) *)
 Theorem C17_inverse_mod : forall m z i, inverse_mod z m = Ok i -> z <> 0 -> eqm m (i * z) 1.
 Proof. exact inverse_mod_spec. Qed.
 Print Assumptions C17_inverse_mod.
@@ -257,6 +260,38 @@ Theorem C17_ecdh_value : forall p a inG gadd gneg, ec_group p a inG gadd gneg ->
   end.
 Proof. exact ecdh_shared_correct. Qed.
 Print Assumptions C17_ecdh_value.
+
+(* Totality: under the same hypothesis the models return (no fuel exhaustion of the extended
+   Euclid / table / NAF loops, no inverse failure), so the theorems above are not vacuous:
+   2^j * Q <> 0 is what "odd (prime) order" gives for a finite generator Q. *)
+Theorem C17_inverse_mod_total : forall m z, prime m -> ~ eqm m z 0 -> exists i, inverse_mod z m = Ok i.
+Proof. exact inverse_mod_total. Qed.
+Print Assumptions C17_inverse_mod_total.
+
+Theorem C17_mul_total : forall p a inG gadd gneg, ec_group p a inG gadd gneg ->
+  forall J Q ord gen k, inG Q -> jrepr p J Q -> 0 <= k -> 0 <= ord ->
+  (gen = true -> 0 < ord /\ forall j, 0 <= j -> zmul gadd gneg (2 ^ j) Q <> None) ->
+  exists r, pj_mul p a ord gen J k = Ok r.
+Proof. exact mul_total. Qed.
+Print Assumptions C17_mul_total.
+
+Theorem C17_mul_add_total : forall p a inG gadd gneg, ec_group p a inG gadd gneg ->
+  forall J1 Q1 ord1 gen1 k1 J2 Q2 ord2 gen2 k2,
+  inG Q1 -> inG Q2 -> jrepr p J1 Q1 -> jrepr p J2 Q2 -> wfz p J1 -> wfz p J2 ->
+  0 <= k1 -> 0 <= k2 -> 0 <= ord1 -> 0 <= ord2 ->
+  (gen1 = true -> 0 < ord1 /\ forall j, 0 <= j -> zmul gadd gneg (2 ^ j) Q1 <> None) ->
+  (gen2 = true -> 0 < ord2 /\ forall j, 0 <= j -> zmul gadd gneg (2 ^ j) Q2 <> None) ->
+  exists r, pj_mul_add p a ord1 gen1 J1 k1 ord2 gen2 J2 k2 = Ok r.
+Proof. exact mul_add_total. Qed.
+Print Assumptions C17_mul_add_total.
+
+Theorem C17_ecdh_total : forall p a inG gadd gneg, ec_group p a inG gadd gneg ->
+  (forall G JG n d, inG G -> jrepr p JG G -> 0 < n -> zmul gadd gneg n G = None -> 0 <= d ->
+     (forall j, 0 <= j -> zmul gadd gneg (2 ^ j) G <> None) ->
+     exists r, pubkey_of p a n JG d = Ok r) /\
+  (forall Q JQ d, inG Q -> jrepr p JQ Q -> 0 <= d -> exists r, ecdh_shared p a JQ d = Ok r).
+Proof. intros p a inG gadd gneg GH. split; [exact (pubkey_of_total _ _ _ _ _ GH) | exact (ecdh_shared_total _ _ _ _ _ GH)]. Qed.
+Print Assumptions C17_ecdh_total.
 
 (* ===================================================================== *)
 (* 3. Curve membership, public-point validation, the 17 parameter sets (no hypothesis) *)
